@@ -50,6 +50,9 @@ Reparse(u) == LET r == Parse(Href(u, FALSE), None, None) IN
 HasDelim(s) == \E i \in 1..Len(s) : s[i] \in {37, 38, 43, 61}
 HasDelims(l) == \E i \in 1..Len(l) : HasDelim(l[i][1]) \/ HasDelim(l[i][2])
 LawOf(l) == [faithful |-> ParseQ(SerQImplO(DefaultOpts, Dev.SkipEquals, l)) = l, delims |-> HasDelims(l)]
+(* the same with the IDNA answer supplied (trace validation: the oracle is assumed idempotent on its own output) *)
+ReparseI(u, idna) == LET r == Parse(Href(u, FALSE), None, idna) IN
+              [same |-> r.res = "ok" /\ r.u = u, fail |-> r.res # "ok", g |-> Getters(IF r.res = "ok" THEN r.u ELSE EmptyUrl)]
 ObsOf(o) == IF ~o.live THEN [live |-> FALSE]
             ELSE [live |-> TRUE, g |-> Getters(o.u), p |-> o.params]
                  @@ (IF WithRT THEN [rt |-> Reparse(o.u)] ELSE <<>>)
@@ -61,38 +64,47 @@ StepRec(op, h, hb, n, a, b, fail, os) == [op |-> op, h |-> h, hb |-> hb, n |-> n
 WithObs(hs, os) == [i \in 1..Len(hs) |-> IF i = Len(hs) THEN hs[i] @@ [objs |-> ObsAll(os)] ELSE hs[i]]
 Log(op, h, hb, n, a, b, fail, os) == hist' = Append(hist, StepRec(op, h, hb, n, a, b, fail, os))
 
+(* ---- the effect of each public call as a function on the handle table (shared by the actions below and by the
+        trace specification Trace_Api.tla, which supplies the IDNA answer inferred from the log) ---- *)
+ParseInto(os, h, in, base, idna) ==
+  LET r == Parse(in, base, idna) IN
+  [os |-> IF r.res = "ok" THEN [os EXCEPT ![h] = Obj(r.u)] ELSE os, fail |-> r.res # "ok", asked |-> r.asked]
+SetterOn(os, h, op, v, idna) ==
+  LET u2 == Apply(os[h].u, op, v, idna) IN
+  [os EXCEPT ![h].u = u2, ![h].params = IF op = "search" THEN ListOf(u2) ELSE @]
+SPOn(os, h, op, n, v) ==
+  LET l2 == ListOp(os[h].params, op, n, v) IN
+  [os EXCEPT ![h].params = l2, ![h].u.query = UpdateSteps(l2, @)]
+CloneOn(os, h, hn) == [os EXCEPT ![hn] = os[h]]
+
 (* ---- actions ---- *)
 Init == objs = [h \in Handles |-> Dead] /\ actor = 0 /\ hist = <<>>
 
 ParseNew(h, in) ==
   /\ ~objs[h].live
-  /\ LET r == Parse(in, None, None) IN
+  /\ LET r == ParseInto(objs, h, in, None, None) IN
      /\ r.asked = None                  \* IDNA-free inputs only in this machine
-     /\ LET os == IF r.res = "ok" THEN [objs EXCEPT ![h] = Obj(r.u)] ELSE objs IN
-        objs' = os /\ actor' = h /\ Log("parse", h, 0, "", in, <<>>, r.res # "ok", os)
+     /\ objs' = r.os /\ actor' = h /\ Log("parse", h, 0, "", in, <<>>, r.fail, r.os)
 
 Resolve(hb, hn, ref) ==
   /\ objs[hb].live /\ ~objs[hn].live
-  /\ LET r == Parse(ref, Some(objs[hb].u), None) IN
+  /\ LET r == ParseInto(objs, hn, ref, Some(objs[hb].u), None) IN
      /\ r.asked = None
-     /\ LET os == IF r.res = "ok" THEN [objs EXCEPT ![hn] = Obj(r.u)] ELSE objs IN
-        objs' = os /\ actor' = hn /\ Log("resolve", hn, hb, "", ref, <<>>, r.res # "ok", os)
+     /\ objs' = r.os /\ actor' = hn /\ Log("resolve", hn, hb, "", ref, <<>>, r.fail, r.os)
 
 Setter(h, op, v) ==
   /\ objs[h].live
-  /\ LET u2 == Apply(objs[h].u, op, v, None)
-         os == [objs EXCEPT ![h].u = u2, ![h].params = IF op = "search" THEN ListOf(u2) ELSE @]
+  /\ LET os == SetterOn(objs, h, op, v, None)
      IN objs' = os /\ actor' = h /\ Log("set", h, 0, op, v, <<>>, FALSE, os)
 
 SPMutate(h, op, n, v) ==
   /\ objs[h].live
-  /\ LET l2 == ListOp(objs[h].params, op, n, v)
-         os == [objs EXCEPT ![h].params = l2, ![h].u.query = UpdateSteps(l2, @)]
+  /\ LET os == SPOn(objs, h, op, n, v)
      IN objs' = os /\ actor' = h /\ Log("sp", h, 0, op, n, v, FALSE, os)
 
 Clone(h, hn) ==
   /\ objs[h].live /\ ~objs[hn].live
-  /\ LET os == [objs EXCEPT ![hn] = objs[h]] IN
+  /\ LET os == CloneOn(objs, h, hn) IN
      objs' = os /\ actor' = hn /\ Log("clone", hn, h, "", <<>>, <<>>, FALSE, os)
 
 (* readers: no state change; the expected result is logged *)
